@@ -53,7 +53,7 @@ def run(ctx):
                         "and the parser shape invariant ShapeOK (checked on every real tree, reported as inv)"]
     ctx.regen()
     ctx.extra_lean_dirs = ["C10"]
-    ctx.prove(["TsVerif.C02.Props", "TsVerif.C02.EditProps"], "TsVerif/C02/Audit.lean")
+    ctx.prove(["TsVerif.C02.Props", "TsVerif.C02.EditProps", "TsVerif.C02.BalanceProps"], "TsVerif/C02/Audit.lean")
     driver = ctx.build_driver("tsv-c02")
     explorer = ctx.cargo_bin("c02")
     langdump = ctx.cunit("cunit_c02")
@@ -92,6 +92,7 @@ def run(ctx):
     totals = {"raw": 0, "vis": 0, "inner": 0, "leaves": 0, "literals": 0}
     sizes = {"0": 0, "1-15": 0, "16-255": 0, "256-4095": 0, "4096+": 0}
     corr_bad = judge_bad = inv_bad = 0
+    bal = {"cases": 0, "changed": 0, "corr_bad": 0, "judge_bad": 0, "nodes": 0}
     per_clause = {}
     for line in out.split("\n"):
         if not line.strip():
@@ -100,6 +101,32 @@ def run(ctx):
         if r is None:
             continue
         cid, corr, inv, judge, kv = r
+        if kv.get("balcase") == "1":
+            # a rebalancing case: real ts_subtree_compress / ts_parser__balance_subtree on an unbalanced tree
+            lang = cid.rsplit("-", 1)[0][4:]
+            spec = specs.get(cid, "")
+            bal["cases"] += 1
+            bal["changed"] += int(kv.get("changed", "0") or 0)
+            bal["nodes"] += int(kv.get("raw", "0") or 0)
+            if corr != "ok":
+                bal["corr_bad"] += 1
+                for cl in clauses(corr):
+                    per_clause[cl] = per_clause.get(cl, 0) + 1
+                    if per_clause[cl] <= 3:
+                        ctx.violation("corr", "the port of ts_subtree_compress / ts_parser__balance_subtree and the real code disagree (%s, case %s): %s"
+                                      % (cl, cid, detail(corr, cl)),
+                                      {"case": cid, "spec": spec, "clause": cl, "verdict": corr[:1500],
+                                       "correspondence": "TsVerif.C02.compress / balance vs lib/src/subtree.c:ts_subtree_compress, lib/src/parser.c:ts_parser__balance_subtree"},
+                                      fingerprint={"lang": lang, "clause": cl})
+            if judge != "ok":
+                bal["judge_bad"] += 1
+                for cl in clauses(judge):
+                    per_clause[cl] = per_clause.get(cl, 0) + 1
+                    if per_clause[cl] <= 3:
+                        ctx.violation("judge", "rebalancing changed what it must keep (%s, case %s): %s" % (cl, cid, detail(judge, cl)),
+                                      {"case": cid, "spec": spec, "clause": cl, "verdict": judge[:1500], "stats": kv},
+                                      fingerprint={"lang": lang, "clause": cl})
+            continue
         evals += 1
         lang = cid.rsplit("-", 1)[0]
         spec = specs.get(cid, "")
@@ -142,6 +169,17 @@ def run(ctx):
                               {"case": cid, "spec": spec}, fingerprint={"lang": lang, "clause": "inv"}, found_input=False)
     ctx.oblige("corr:summarize=ts_subtree_summarize_children", corr_bad == 0, "%d trees with disagreements" % corr_bad)
     ctx.oblige("corr:ShapeOK-holds-on-real-trees", inv_bad == 0, "%d trees" % inv_bad)
+    ctx.oblige("corr:compress/balance-port=ts_subtree_compress/ts_parser__balance_subtree(every field of every node of the real result)",
+               bal["corr_bad"] == 0 and (bal["changed"] > 0 or bool(ctx.replay) or bal["cases"] == 0 and evals == 0),
+               "%d rebalancing cases (%d changed the tree), %d disagree" % (bal["cases"], bal["changed"], bal["corr_bad"]))
+    ctx.oblige("judge:rebalancing-keeps-leaves-root-extent-and-summaries(on the real results)", bal["judge_bad"] == 0,
+               "%d of %d cases" % (bal["judge_bad"], bal["cases"]))
+    ctx.coverage["rebalancing"] = {"cases": bal["cases"], "cases_where_the_tree_changed": bal["changed"], "nodes": bal["nodes"],
+                                   "port_vs_real_disagreements": bal["corr_bad"], "judge_failures": bal["judge_bad"],
+                                   "rule": "per zoo language 10 (thorough: 60) unbalanced trees built in the unity build (left-deep chains of a hidden "
+                                           "symbol of the language, 2-70 levels, leaves or short chains on the right, zero-width and multi-line leaves; "
+                                           "every third case with shared nodes, foreign symbols and one-child nodes); alternately "
+                                           "ts_subtree_compress(count) and the whole ts_parser__balance_subtree"}
     ctx.coverage.update({
         "evaluations": evals, "distinct_nontrivial": len(distinct),
         "rule": "zoo languages x (grammar-directed sentences, byte-mutated sentences, each also after 1-4 random edits + re-parse with the "
@@ -156,7 +194,7 @@ def run(ctx):
         "failing_clauses": per_clause,
         "impl_vs_judge_failures": judge_bad, "model_vs_impl_disagreements": corr_bad, "shape_invariant_failures": inv_bad,
     })
-    if evals == 0:
+    if evals == 0 and bal["cases"] == 0:
         ctx.oblige("run:driver-produced-results", False, out[-500:])
     elif not ctx.replay and len(distinct) * 4 < evals:
         ctx.oblige("generator:nontrivial-fraction>=25%", False, "%d of %d" % (len(distinct), evals))
